@@ -830,9 +830,24 @@ func (x *exec) newPlug(i int, pp PluginPlan, resident bool) *plug {
 		if pp.Leave == leaveInSync {
 			pl.leaveAfter(x)
 		}
-		in0 := x.inSync.Load() > 0
+		// The handler belongs to the SyncFn call that is in progress when it is ENTERED (the
+		// runtime sends the request from inside that call); everything it records goes to that
+		// registration. A handler that outlives its SyncFn call (the plugin left, or the runtime
+		// gave up) must not be booked on the next registration, which may already be running.
+		same := func(reg *Reg) bool {
+			x.mu.Lock()
+			defer x.mu.Unlock()
+			return reg != nil && x.curReg == reg
+		}
+		x.mu.Lock()
+		myReg := x.curReg
+		x.mu.Unlock()
+		in0 := myReg != nil
 		t0, h0 := x.now(), x.held.Load()
-		in0 = in0 && x.inSync.Load() > 0
+		in0 = in0 && same(myReg)
+		if !in0 {
+			myReg = nil
+		}
 		pl.mu.Lock()
 		pl.syncCalls++
 		for _, c := range ctrs {
@@ -840,9 +855,9 @@ func (x *exec) newPlug(i int, pp PluginPlan, resident bool) *plug {
 		}
 		pl.mu.Unlock()
 		pause(orNone(pp.SyncUs))
-		in1 := x.inSync.Load() > 0
+		in1 := same(myReg)
 		t1, h1 := x.now(), x.held.Load()
-		in1 = in1 && x.inSync.Load() > 0
+		in1 = in1 && same(myReg)
 		if (!in0 || !in1) && pp.Leave == 0 { // (a plugin that leaves makes the runtime give up on purpose)
 			x.infraf("plugin %s: its Synchronize handler ran (partly) outside the runtime's SyncFn call", pl.name)
 		}
@@ -853,7 +868,7 @@ func (x *exec) newPlug(i int, pp PluginPlan, resident bool) *plug {
 			h1 = 0
 		}
 		x.mu.Lock()
-		if reg := x.curReg; reg != nil {
+		if reg := myReg; reg != nil {
 			reg.Handlers++
 			if reg.Handlers == 1 {
 				reg.Plugin, reg.THandler, reg.THandlerX, reg.HeldHdl, reg.HeldHdlX = pl.name, t0, t1, h0, h1
@@ -1708,6 +1723,15 @@ func execute(c C08Case, attempt int) result {
 		}
 	}
 	hist.Regs = regs
+	if os.Getenv("VERIF_C08_DEBUG") != "" {
+		fmt.Fprintf(os.Stderr, "DEBUG tLastRel=%d judgeAt=%d timeFail=%q stuck=%v\n", hist.TLastRel, x.now(), timeFail, stuck)
+		for _, rg := range regs {
+			fmt.Fprintf(os.Stderr, "DEBUG reg %+v\n", rg)
+		}
+		for _, pl := range x.plugs {
+			fmt.Fprintf(os.Stderr, "DEBUG plug %s leave=%d left=%d started=%d snap=%d\n", pl.name, pl.plan.Leave, pl.tLeft.Load(), x.startedAt(pl.name), len(pl.snap))
+		}
+	}
 	hist.HookHits = hits
 	for _, cr := range x.crecs {
 		hist.PerCreator = append(hist.PerCreator, len(cr))
@@ -2021,6 +2045,9 @@ func runC08(c C08Case) ev.Outcome {
 	// The time clause failed, or the case could not be judged (a request or a registration
 	// failed for reasons the property does not talk about): re-execute up to three times.
 	ev.Get("C08").AddExtra("reexecuted", 1)
+	if os.Getenv("VERIF_C08_DEBUG") != "" {
+		fmt.Fprintf(os.Stderr, "DEBUG re-executing: timeFail=%q infra=%q\n", first.timeFail, first.infra)
+	}
 	allTime := first.timeFail != ""
 	last := first
 	for attempt := 1; attempt <= 3; attempt++ {
@@ -2117,6 +2144,11 @@ func sweepCases() []C08Case {
 		{Pre: 1, PreStart: &PreStartPlan{HoldMs: 150, Create: true, AddFirst: true}, Residents: []PluginPlan{{Idx: 15}},
 			Creators: []CreatorPlan{cr(true, 6, 0, 0), cr(false, 6, 0, 0)}, Plugins: []PluginPlan{{Idx: 40, After: 0}, {Idx: 3, After: 7}}, Delays: d(3)},
 		{PreStart: &PreStartPlan{HoldMs: 100, Create: true}, Creators: []CreatorPlan{cr(false, 5, 0, 0)}, Plugins: []PluginPlan{{Idx: 8, After: 0}}, Delays: d(1)},
+		// a plugin that leaves during its Synchronize with a handler that outlives the runtime's
+		// SyncFn call, directly followed by a plugin whose synchronization takes 20 ms: the late
+		// handler exit must not be booked on the second registration (harness regression)
+		{Pre: 1, Creators: []CreatorPlan{{AddFirst: true, N: 25, Tail: 3, Hold: -1, Gap: 100, Unblocks: 1}},
+			Plugins: []PluginPlan{{Idx: 0, SyncUs: 6000, Leave: leaveInSync}, {Idx: 98, After: 1, SyncUs: 20000, CreateUs: 5}}, Delays: d(2)},
 	}
 	if ev.Thorough() {
 		// the default-sized timeout of the library (2 s) with a block of 2.5 s
